@@ -249,6 +249,7 @@ def external_jobs(scheds, rnd, q):
                 script = {"batches": list(batches), "exit_delay": delay, "lag": rnd.choice([0, 1, 2]) if kind == "cp2k" else 0}
                 if variant % 2 == 1:
                     script["crash_after"] = rnd.randrange(1, maxlen + 1)
+                    script["crash_code"] = rnd.choice([1, 2, -9, -11])      # an error exit, or death by a signal
                 retrace = "crash_after" not in script and not reverse
                 jobs.append((kind, rnd.randrange(10 ** 6), script, reverse, start_rev, cross_at, maxlen, rnd.choice([1, 2, 3]), retrace))
         # everything at once and exit; frame by frame; bursts that end with the program's own exit
